@@ -6,12 +6,12 @@ require (
 	github.com/fxamacker/cbor/v2 v2.9.2-0.20260331174317-a78e92ec038e
 	github.com/fxamacker/circlehash v0.3.0
 	github.com/onflow/atree v0.0.0
+	github.com/zeebo/blake3 v0.2.4
 )
 
 require (
 	github.com/klauspost/cpuid/v2 v2.0.12 // indirect
 	github.com/x448/float16 v0.8.4 // indirect
-	github.com/zeebo/blake3 v0.2.4 // indirect
 )
 
 replace github.com/onflow/atree => /repo
